@@ -36,6 +36,8 @@ CHECKS = {
          "for every enumerated (operator, k, which, algorithm) orthonormality of U and V, non-negativity of Sigma and the reconstruction (A itself or the requested rank-k part) are checked; pinv(A) b is compared with the minimum-norm least-squares solution from numpy.linalg.pinv of the reference"),
  "C12": ("(system family, size, right-hand side, x0, preconditioner) x EVERY truncation max_iters (each prefix run is a checked state) x 3 tolerances x scalings x entry points; independent Krylov optimum in exact rational arithmetic for n<=6",
          "for every enumerated system every k-step prefix of CG is compared per column with the independently computed A-norm optimum over x0 + K_k(PA, P r0); the cap on products, the stopping inequality at the stop and one step earlier, exact zeros for zero right-hand sides, linearity in b and the bookkeeping are checked on the same runs"),
+ "C14": ("(Hermitian operator family incl. repeated / clustered spectra and aliasing-prone kinds, size, start vector incl. eigenvectors and a batch, tol, entry point) x EVERY iteration cap: each capped run is a checked state",
+         "for every enumerated run the returned Q and T are checked for the column bound, orthonormality, the first column, a real symmetric tridiagonal T with non-negative off-diagonal equal to Q^H A Q, the three-term relation, the Krylov span, early termination with exact Ritz values at an exhausted space, and ascending Ritz pairs from lanczos_eigs"),
 }
 PENDING = {}
 props = [json.loads(l) for l in open(os.path.join(ROOT, "properties.jsonl"))]
